@@ -20,6 +20,9 @@ import (
 // watchdog for every single wait of a scenario. Generous: its firing never becomes a verdict.
 const stepWatchdog = 15 * time.Second
 
+// watchdog for the final cleanup wait (idle periods used are <= 80 ms).
+const quiescenceWatchdog = 8 * time.Second
+
 // tuple is one option tuple (what the connection key is computed from).
 type tuple struct {
 	Name      string            `json:"name"`
@@ -105,19 +108,19 @@ type subscriber struct {
 	cancelAtHook bool
 	hookDelay    time.Duration
 
-	mu          sync.Mutex
-	evs         []cevent
-	called      bool
-	returned    bool
-	subErr      error
-	unsub       func()
-	cancelled   bool
-	cancelPhase string
-	cancelClock int64
+	mu              sync.Mutex
+	evs             []cevent
+	called          bool
+	returned        bool
+	subErr          error
+	unsub           func()
+	cancelled       bool
+	cancelPhase     string
+	cancelClock     int64
 	ctxLiveAtReturn bool
-	faulted     bool // the server dropped / silenced the connection carrying it
-	sendFailed  int  // manual mode: the upstream could not send because the subscription's connection was gone
-	hookHits    int
+	faulted         bool // the server dropped / silenced the connection carrying it
+	sendFailed      int  // manual mode: the upstream could not send because the subscription's connection was gone
+	hookHits        int
 }
 
 type env struct {
